@@ -9,7 +9,7 @@
    when invoked (register/remove handlers), so re-entrancy is covered unless a theorem says otherwise.
    Satisfiability Examples for the hypotheses are at the end of Lemmas.v, names starting with ex_. *)
 From Common Require Import Prelude.
-From C03 Require Import Model Lemmas Hold.
+From C03 Require Import Model Lemmas Hold Dispatch Window Multi Config ConfigLemmas.
 Open Scope Z_scope.
 
 (* After ANY history the logical state is the logical value of the last report (NC inversion applied to raw
@@ -220,3 +220,154 @@ Theorem recycle_semantics_only_closed_by_its_timer :
   forall A s te w, rc (dv s) = Some w -> snd te <> ERecycle -> rc (dv (fst (step A s te))) = Some w.
 Proof. exact window_only_closed_by_its_timer_l. Qed.
 Print Assumptions recycle_semantics_only_closed_by_its_timer.
+
+(* ---- round 4: removal DURING a dispatch -------------------------------------------------------------
+   _call_handlers iterates over a copy of the registry list and _process_active_timed_switches over snapshots of
+   the deadline keys and of the entries of a key.  A callback invoked by such a loop may remove ANOTHER handler
+   x = (cb, st, ms) (an earlier or a later entry of the same loop, timed or untimed), and go on with the rest of
+   its script [rest]; the loop then continues over a snapshot that may still contain x.  For an ARBITRARY
+   snapshot (any list of entries, stale or not), any scripts that do not register x again and any later history
+   without a registration of x: the rest of the loop neither invokes x nor leaves a pending timed entry of x
+   (so `entry.cancelled` / "entry not in the live table" must cover timed AND untimed entries), and x never fires
+   afterwards. *)
+Theorem removed_during_dispatch_never_fires :
+  forall A cb st ms, acts_ok A cb st ms -> is_ev cb = false ->
+  forall now v (snapshot : list entry) s rest lg evs,
+    Forall (act_ok cb st ms) rest -> (forall t, ~ In (Fire t cb st ms) lg) -> Forall (ev_ok cb st ms) evs ->
+    let r := fold_left (call_one A now v) snapshot (fold_left (run_act now) rest (rem s cb st ms), lg) in
+    (forall t, ~ In (Fire t cb st ms) (snd r)) /\
+    (forall k, ~ In (cb, st, ms) (tbl_get (get_tbl (fst r)) k)) /\
+    (forall t, ~ In (Fire t cb st ms) (snd (exec A (fst r) evs))).
+Proof. exact removed_in_dispatch_l. Qed.
+Print Assumptions removed_during_dispatch_never_fires.
+
+Theorem removed_during_wakeup_never_fires :
+  forall A cb st ms, acts_ok A cb st ms -> is_ev cb = false ->
+  forall now k (snapshot : list triple) s rest lg evs,
+    Forall (act_ok cb st ms) rest -> (forall t, ~ In (Fire t cb st ms) lg) -> Forall (ev_ok cb st ms) evs ->
+    let r := fold_left (proc_one A now k) snapshot (fold_left (run_act now) rest (rem s cb st ms), lg) in
+    (forall t, ~ In (Fire t cb st ms) (snd r)) /\
+    (forall k', ~ In (cb, st, ms) (tbl_get (get_tbl (fst r)) k')) /\
+    (forall t, ~ In (Fire t cb st ms) (snd (exec A (fst r) evs))).
+Proof. exact removed_in_wakeup_entries_l. Qed.
+Print Assumptions removed_during_wakeup_never_fires.
+
+Theorem removed_during_wakeup_keys_never_fires :
+  forall A cb st ms, acts_ok A cb st ms -> is_ev cb = false ->
+  forall now (keys_snapshot : list Z) s rest lg evs,
+    Forall (act_ok cb st ms) rest -> (forall t, ~ In (Fire t cb st ms) lg) -> Forall (ev_ok cb st ms) evs ->
+    let r := fold_left (proc_key A now) keys_snapshot (fold_left (run_act now) rest (rem s cb st ms), lg) in
+    (forall t, ~ In (Fire t cb st ms) (snd r)) /\
+    (forall k', ~ In (cb, st, ms) (tbl_get (get_tbl (fst r)) k')) /\
+    (forall t, ~ In (Fire t cb st ms) (snd (exec A (fst r) evs))).
+Proof. exact removed_in_wakeup_keys_l. Qed.
+Print Assumptions removed_during_wakeup_keys_never_fires.
+
+(* untimed_once_per_change with removals: the guard adds_only is weakened to keeps_untimed: the callbacks may
+   register anything and remove anything EXCEPT untimed handlers of the state being dispatched (timed handlers,
+   handlers of the other state): still every untimed handler registered for the new state is invoked exactly once,
+   in registration order, and nothing else.  (Full statement as above; what happens when an untimed handler of the
+   dispatched state is removed is removed_during_dispatch_never_fires: it is not invoked if its turn had not come.) *)
+Theorem untimed_once_per_change_with_removals_partial :
+  forall A now s lg val, keeps_untimed A (logical_of (inv s) lg val) -> logical_of (inv s) lg val <> sst s ->
+    mutes (dv s) = [] -> no_rcb (reg_of (rg s) (logical_of (inv s) lg val)) ->
+    snd (report A now s lg val)
+    = untimed_fires now (logical_of (inv s) lg val) (reg_of (rg s) (logical_of (inv s) lg val)).
+Proof. exact untimed_once_rem_l. Qed.
+Print Assumptions untimed_once_per_change_with_removals_partial.
+
+(* ---- round 4: the configuration dimension (Config.v) ---------------------------------------------------
+   [initialize M C] runs Switch._initialize step by step (a sequence of _create_activation_event calls).  In closed
+   form: the events configured for state v are, in this order, the name event (iff auto_create_switch_events), for
+   EVERY tag the tag events (sw_<tag>, sw_<tag>_active for 1; sw_<tag>_inactive for 0; whatever
+   auto_create_switch_events says), and events_when_activated/_deactivated; those without "|time" are what
+   _post_events(v) posts, those with "|time" are registered as timed events.post handlers in the same order. *)
+Theorem initialize_closed_form :
+  forall M C v, evs_of (initialize M C) v = untimed (configured M C v) /\
+                trs_of (initialize M C) v = timed_of (configured M C v).
+Proof. exact initialize_closed_form_l. Qed.
+Print Assumptions initialize_closed_form.
+
+Theorem tag_events_independent_of_auto_create :
+  forall M C v tag e, In tag (c_tags C) -> In e (tag_evs M v tag) -> has_bar e = false ->
+    In e (evs_of (initialize M C) v).
+Proof. exact tag_events_always_l. Qed.
+Print Assumptions tag_events_independent_of_auto_create.
+
+(* "posts the switch's configured events once": a real change of an unmuted switch without ignore window whose
+   registry (for the new state) is the one Switch._initialize built, with callbacks that do not remove untimed
+   handlers of that state, posts exactly the configured untimed events of the new state, each once (with
+   multiplicity, in configuration order), at the time of the change.  Partial: with an ignore window the posts
+   follow recycle_semantics_*; "event|time" entries follow timed_iff_held; "event|0" entries are excluded. *)
+Theorem change_posts_configured_events_once_partial :
+  forall M C A now s lg val,
+    c_win C <= 0 -> keeps_untimed A (logical_of (inv s) lg val) -> logical_of (inv s) lg val <> sst s ->
+    mutes (dv s) = [] ->
+    map cbms (reg_of (rg s) (logical_of (inv s) lg val))
+    = reg_pairs (c_win C) (initialize M C) (logical_of (inv s) lg val) ->
+    Forall (fun p => snd p <> 0) (trs_of (initialize M C) (logical_of (inv s) lg val)) ->
+    posts (initialize M C) (snd (report A now s lg val))
+    = map (pair now) (untimed (configured M C (logical_of (inv s) lg val))).
+Proof. exact change_posts_configured_l. Qed.
+Print Assumptions change_posts_configured_events_once_partial.
+
+(* ---- round 4: the ignore window at HISTORY level (Window.v) ---------------------------------------------
+   recycle_semantics as ONE statement over all histories: "the last post equals the state whenever no window is
+   open".  [last_post p lg] is the state announced by the last <switch>_active/_inactive post in the log (p if
+   there is none).  For a switch with ignore_window_ms > 0 ([RT]: both states have their
+   _post_events_with_recycle handler, nothing is registered under the observation numbers 1000/1001, not muted),
+   starting with no window open, for EVERY history of reports (raw/logical, duplicates), registrations, removals,
+   queries, unmutes, wake-ups and window-end timers in any order and at any times ([ev_g]: no mute, no removal of
+   the window handlers, no registration under 1000/1001) and all re-entrant callback scripts with the same
+   restriction ([acts_g]):
+     - whenever no window is open, the last post is the logical state of the switch;
+     - while a window is open, the last post is the state the window was opened for (at most one post per window,
+       the window-end timer catches up).
+   Each guard is necessary: a muted change posts nothing, and without its window handler the switch posts nothing. *)
+Theorem window_last_post_is_state :
+  forall A, acts_g A -> forall evs s, Forall ev_g evs -> RT s -> rc (dv s) = None ->
+    let r := exec A s evs in
+    match rc (dv (fst r)) with
+    | None => last_post (sst s) (snd r) = sst (fst r)
+    | Some (_, v0) => last_post (sst s) (snd r) = v0
+    end.
+Proof. exact window_closed_last_post_l. Qed.
+Print Assumptions window_last_post_is_state.
+
+(* the same from any state, open window or not: J s p = "p is what the world has been told" *)
+Theorem window_history_invariant :
+  forall A, acts_g A -> forall evs s p, Forall ev_g evs -> RT s -> J s p ->
+    J (fst (exec A s evs)) (last_post p (snd (exec A s evs))).
+Proof. exact window_history_l. Qed.
+Print Assumptions window_history_invariant.
+
+Theorem initial_state_window_invariants :
+  forall nc st h lc0 win, RT (init_state nc st h lc0 win [(1010, 0)] [(1011, 0)]).
+Proof. exact init_RT. Qed.
+Print Assumptions initial_state_window_invariants.
+
+(* ---- round 4: several switches in ONE model instance (Multi.v) --------------------------------------------
+   [mrun] runs a machine = list of switches that share the loop: every operation (t, i, holds, o) first lets EVERY
+   switch run its due timers (minus the ones the operation overtook), then switch i performs o.  For every
+   history, every number of switches and all callback scripts, what switch j does in the machine is exactly what
+   the one-switch model [run_ops] does on the history projected on j: the controller's tables are keyed by
+   switch, no switch influences another one except through the shared loop (the thresholds) and the shared event
+   names (Config.v).  This is what makes the per-switch comparison of the correspondence suites sound. *)
+Theorem machine_is_product_of_switches :
+  forall A fuel ops cs j s clk, nth_error cs j = Some (s, clk) ->
+    nth_error (mrun A fuel cs ops) j = Some (run_ops A fuel clk s (proj j ops)).
+Proof. exact mrun_projection_l. Qed.
+Print Assumptions machine_is_product_of_switches.
+
+(* timed_iff_held_partial_change with removals: guard adds_only weakened to keeps_timed (the callbacks may register
+   anything and remove anything except TIMED handlers of the state being dispatched): the change still enters every
+   timed handler registered for the new state at now + ms.  (When a timed handler of the dispatched state is removed
+   during the dispatch: removed_during_dispatch_never_fires; the history level is timed_iff_held.) *)
+Theorem timed_iff_held_partial_change_with_removals :
+  forall A now s lg val, keeps_timed A (logical_of (inv s) lg val) -> logical_of (inv s) lg val <> sst s ->
+    mutes (dv s) = [] ->
+    let v := logical_of (inv s) lg val in
+    let s' := fst (report A now s lg val) in
+    forall e, In e (reg_of (rg s) v) -> snd e <> 0 -> has s' (now + us (snd e)) (snd (fst e), v, snd e).
+Proof. exact change_schedules_rem_l. Qed.
+Print Assumptions timed_iff_held_partial_change_with_removals.
